@@ -196,13 +196,16 @@ fn filter_part(res: &mut PartResult, states: &mut vseq::States) {
     }
 }
 
-fn router_part(ctx: &Ctx, res: &mut PartResult, states: &mut vseq::States, max_routes: usize) {
+fn router_part(ctx: &Ctx, res: &mut PartResult, states: &mut vseq::States, max_routes: usize, first: Option<usize>) {
     let pats = ["", "a", "ab", "abc", "b", "ba"];
     let masks = [(MetricKindMask::COUNTER, 0b001u8), (MetricKindMask::GAUGE, 0b010), (MetricKindMask::HISTOGRAM, 0b100), (MetricKindMask::ALL, 0b111)];
     let choices: Vec<(usize, usize)> = (0..pats.len()).flat_map(|p| (0..masks.len()).map(move |m| (p, m))).collect();
-    let mut tables: Vec<Vec<(usize, usize)>> = vec![vec![]];
-    let mut layer: Vec<Vec<(usize, usize)>> = vec![vec![]];
-    for _ in 0..max_routes {
+    // thorough tier: one part per first route (part 0 also takes the empty table)
+    let (mut tables, mut layer, rounds): (Vec<Vec<(usize, usize)>>, Vec<Vec<(usize, usize)>>, usize) = match first {
+        None => (vec![vec![]], vec![vec![]], max_routes),
+        Some(f) => (if f == 0 { vec![vec![], vec![choices[f]]] } else { vec![vec![choices[f]]] }, vec![vec![choices[f]]], max_routes - 1),
+    };
+    for _ in 0..rounds {
         let mut next = Vec::new();
         for t in &layer {
             for c in &choices {
@@ -361,13 +364,16 @@ fn stack_part(res: &mut PartResult, states: &mut vseq::States) {
 
 fn parts(ctx: &Ctx) -> Vec<PartSpec> {
     let b = if ctx.quick() { 150.0 } else { 2400.0 };
-    vec![
-        PartSpec::new("prefix", json!({"p": "prefix"})),
-        PartSpec::new("filter", json!({"p": "filter"})),
-        PartSpec::new("router", json!({"p": "router", "n": 3})).budget(b),
-        PartSpec::new("fanout", json!({"p": "fanout"})),
-        PartSpec::new("stack", json!({"p": "stack"})),
-    ]
+    let mut v = vec![PartSpec::new("prefix", json!({"p": "prefix"})), PartSpec::new("filter", json!({"p": "filter"})), PartSpec::new("fanout", json!({"p": "fanout"})), PartSpec::new("stack", json!({"p": "stack"}))];
+    if ctx.quick() {
+        v.push(PartSpec::new("router", json!({"p": "router", "n": 3})).budget(b));
+    } else {
+        // route tables of up to 5 routes (24^5 + ... tables), one part per first route
+        for f in 0..24 {
+            v.push(PartSpec::new(&format!("router-5routes-first{}", f), json!({"p": "router", "n": 5, "first": f})).budget(b));
+        }
+    }
+    v
 }
 
 fn run(ctx: &Ctx, spec: &PartSpec) -> PartResult {
@@ -377,7 +383,7 @@ fn run(ctx: &Ctx, spec: &PartSpec) -> PartResult {
     match spec.arg["p"].as_str().unwrap_or("") {
         "prefix" => prefix_part(&mut res, &mut states),
         "filter" => filter_part(&mut res, &mut states),
-        "router" => router_part(ctx, &mut res, &mut states, spec.arg["n"].as_u64().unwrap_or(2) as usize),
+        "router" => router_part(ctx, &mut res, &mut states, spec.arg["n"].as_u64().unwrap_or(2) as usize, spec.arg["first"].as_u64().map(|x| x as usize)),
         "fanout" => fanout_part(&mut res, &mut states),
         _ => stack_part(&mut res, &mut states),
     }
@@ -391,7 +397,7 @@ fn main() {
     driver::main(CheckDef {
         prop: "C13",
         level: "model_checking",
-        rule: "names = all strings of length <= 4 over {a,b,.,A} plus {\"\", é, aé, p.a}; for each name and kind the describe, register and every handle operation is driven through: the prefix layer (4 prefixes), the filter layer (all pattern sets of <= 2 over {\"\",a,ab,B,é} x case-insensitive x DFA), the router (all ordered route tables of <= 2 (thorough 3) routes over 6 patterns x 4 kind masks, incl. duplicates and overlaps), the fanout (width 0-3) and all stacks of <= 3 layers from {Prefix p, Prefix q.r, Filter a, Filter p.} in every order; logging doubles record exactly what reached which recorder, compared with a reference written from the docs; distinct = distinct (owner / filtered / log shape) outcomes",
+        rule: "names = all strings of length <= 4 over {a,b,.,A} plus {\"\", é, aé, p.a}; for each name and kind the describe, register and every handle operation is driven through: the prefix layer (4 prefixes), the filter layer (all pattern sets of <= 2 over {\"\",a,ab,B,é} x case-insensitive x DFA), the router (all ordered route tables of <= 3 (thorough 5) routes over 6 patterns x 4 kind masks, incl. duplicates and overlaps), the fanout (width 0-3) and all stacks of <= 3 layers from {Prefix p, Prefix q.r, Filter a, Filter p.} in every order; logging doubles record exactly what reached which recorder, compared with a reference written from the docs; distinct = distinct (owner / filtered / log shape) outcomes",
         assumptions: &["ASCII case folding for case-insensitive filters (as aho-corasick documents)", "with duplicated routes either owner is accepted, but exactly one"],
         parts,
         run,
